@@ -61,6 +61,9 @@ def flat_text(x):
     import base64
     if isinstance(x, (list, tuple)) and all(isinstance(y, (bytes, bytearray)) for y in x):
         return base64.b64encode(b''.join(x)).decode()
+    import datetime
+    if isinstance(x, datetime.timedelta):
+        return next((k for k, v in S.DURATIONS.items() if v == x), E.lex(x))       # the spelling of the case family
     return E.lex(x)
 
 
